@@ -5,6 +5,6 @@ CONSTANTS
   SizeSet = {0, 1, 2, 5}
   CapSet = {0, 1, 3, 4}
 INVARIANTS TypeOK SizeIsSum Bounded TinyCounts
-PROPERTIES ReadOnly Reorders StrictLRU FAgrees EvictFree FillLemma
+PROPERTIES ReadOnly Reorders StrictLRU FLemmas
 VIEW View
 CHECK_DEADLOCK FALSE
